@@ -341,6 +341,10 @@ func runByteFamilies(emit func(string)) {
 				emit(t)
 			}
 		}
+		tag := "$" + strings.Repeat("a", k) + "$"
+		for _, t := range []string{tag + "x" + tag + " or 1=1", tag + " or 1=1", "1 or " + tag + "x" + tag + "=1", tag + "x$" + strings.Repeat("a", k) + "b" + tag} {
+			emit(t)
+		}
 		for _, b := range []string{"\\", "-", "/", "*", "#", "@", "(", ")", ".", ";", "!", "\x00", " ", "\xa0", "{", "}", "e", "1"} {
 			r := strings.Repeat(b, k)
 			emit(r)
